@@ -1,6 +1,7 @@
 package main
 
 import (
+	"fmt"
 	"go/ast"
 	"go/types"
 
@@ -11,7 +12,7 @@ func init() {
 	register(&propDef{
 		id: "C06", title: "Lifecycle hooks are ordered and never overlap message handling",
 		technique: "who-may-call + CFG ordering (PreStart success ≺ running; PostStop ⇒◇ reset) + lockset (stopLocker held at every doStop) + call-graph confinement of PostStop to the actor's own turn",
-		explanation: "Decides: (1) Actor.PreStart is invoked only in PID.init, init only from newPID (before the PID is returned/published) and restartSubtree; the running flag is set only after PreStart succeeded; nothing is delivered to a new PID before init; (2) Actor.PostStop is invoked only in doStop; doStop is called only from Shutdown and tryPassivation, each time with stopLocker held; in Shutdown the call is dominated by the runningState test (at most once per incarnation) and the lock is released on every exit; (3) in doStop PostStop is always followed by clearing the running flag and PID.reset (which empties the behaviour stack), so no Receive starts after PostStop finished; children are freed before PostStop; (4) the system mailbox is consulted before the user mailbox on every loop iteration; (5) hook confinement: every synchronous call path that reaches PostStop starts on the actor's own turn (through runTurn); each entry point that reaches it off-turn is reported (these are the ways PostStop can overlap a Receive running on a worker).",
+		explanation: "Decides: (1) Actor.PreStart is invoked only in PID.init, init only from newPID (before the PID is returned/published) and restartSubtree; the running flag is set only after PreStart succeeded; nothing is delivered to a new PID before init; (2) Actor.PostStop is invoked only in doStop; doStop is called only from Shutdown and tryPassivation, each time with stopLocker held; in Shutdown the call is dominated by the runningState test (at most once per incarnation) and the lock is released on every exit; (3) in doStop PostStop is always followed by clearing the running flag and PID.reset (which empties the behaviour stack), so no Receive starts after PostStop finished; children are freed before PostStop; (4) the system mailbox is consulted before the user mailbox on every loop iteration; (5) hook confinement: every synchronous call path that reaches PostStop starts on the actor's own turn (through runTurn); each entry point that reaches it off-turn is reported (these are the ways PostStop can overlap a Receive running on a worker). Added with F24: EVERY caller of doStop (Shutdown and the passivation path) reaches it only over an edge on which runningState was found set by a test made with stopLocker held.",
 		assumptions: []string{"overlap freedom on the stop paths listed as known findings (off-turn stops do not wait for an in-flight Receive)", "mutual exclusion provided by stopLocker is per PID instance (field-based lock identity)"},
 		minObl:     28,
 		run:        runC06,
@@ -171,6 +172,43 @@ func runC06(c *Ctx) {
 			return ok && callee(f.Info, call) == isStateSet
 		}) {
 			c.Check(la.At(a)[stopLocker] == 2, "Shutdown/running-test-under-lock", "the runningState test that guards doStop is made with stopLocker held (test and stop are atomic)", c.P.Pos(a.N.Pos()), "test outside the lock")
+		}
+		// the same for EVERY caller of doStop (the passivation path, F24): doStop is reached only over an edge on
+		// which runningState was found set by a test made while stopLocker is held
+		nCallers := 0
+		for _, u := range c.UsesOf(doStop.Obj) {
+			if u.Call == nil || u.EnclObj == nil {
+				continue
+			}
+			nCallers++
+			cf := c.NewFlow(c.fnOfObj(u.EnclObj))
+			cla := cf.Locks(nil)
+			isRunningTest := func(n ast.Node) bool {
+				call, ok := n.(*ast.CallExpr)
+				if !ok || callee(cf.Info, call) != isStateSet || len(call.Args) != 1 {
+					return false
+				}
+				k, isK := objOfConst(cf.Info, call.Args[0])
+				return isK && k.Name() == "runningState"
+			}
+			lockedRunning := map[Edge]bool{}
+			for e := range cf.BoolEdges(func(x ast.Expr) bool { return isRunningTest(x) }, true) {
+				ok := true
+				for _, a := range cf.atoms[e.From] {
+					if isRunningTest(a.N) && cla.At(a)[stopLocker] != 2 {
+						ok = false
+					}
+				}
+				if ok {
+					lockedRunning[e] = true
+				}
+			}
+			this := func(n ast.Node) bool { return n == ast.Node(u.Call) }
+			w := cf.search(searchSpec{avoidEdges: lockedRunning, target: this})
+			c.Check(w == nil && len(lockedRunning) > 0, "doStop<-"+u.EnclName()+"/running-under-lock", "every caller reaches doStop only over an edge on which runningState was found set while stopLocker is held (an incarnation is stopped, and PostStop run, at most once)", u.Where(c.P), cf.describe(w))
+		}
+		if nCallers < 2 {
+			c.Undecided("doStop-callers", "the callers of doStop (Shutdown, tryPassivation) are found", c.P.Pos(doStop.Decl.Pos()), fmt.Sprintf("found %d", nCallers))
 		}
 	})
 
